@@ -442,14 +442,21 @@ fn report_failure<C: Serialize>(ctx: &Ctx, rep: &mut Report, group: &str, case: 
 /// Random generation with shrinking: runs `cases` cases of `strategy`
 /// through `check`.  Failures whose signature is a listed known finding
 /// are counted and excluded so that the search goes on behind them.
-pub fn drive<C, S>(
-    ctx: &Ctx,
-    rep: &mut Report,
-    group: &str,
-    strategy: S,
-    cases: u32,
-    check: impl Fn(&C) -> CaseResult,
-) where
+pub fn drive<C, S>(ctx: &Ctx, rep: &mut Report, group: &str, strategy: S, cases: u32, check: impl Fn(&C) -> CaseResult)
+where
+    C: std::fmt::Debug + Clone + Serialize,
+    S: Strategy<Value = C>,
+{
+    drive_opts(ctx, rep, group, strategy, cases, check, false)
+}
+
+/// As [`drive`]; with `time_dependent` set, a failure that was observed but
+/// does not reproduce when the (shrunk, then original) case is run again is
+/// still reported, with the case as first observed: the oracle's verdict on
+/// what it saw stands even though the environment (wall clock, file
+/// change-times) has moved on.
+pub fn drive_opts<C, S>(ctx: &Ctx, rep: &mut Report, group: &str, strategy: S, cases: u32, check: impl Fn(&C) -> CaseResult, time_dependent: bool)
+where
     C: std::fmt::Debug + Clone + Serialize,
     S: Strategy<Value = C>,
 {
@@ -464,11 +471,11 @@ pub fn drive<C, S>(
         ..Config::default()
     };
     let mut runner = TestRunner::new(config);
-    let state = RefCell::new((rep, false));
+    let state = RefCell::new((rep, false, None::<(C, Fail)>));
     let result = runner.run(&strategy, |case| {
         let r = guarded(&case, &check);
         let mut st = state.borrow_mut();
-        let (rep, failed) = &mut *st;
+        let (rep, failed, first) = &mut *st;
         match r {
             Ok(outcome) => {
                 if !*failed {
@@ -486,22 +493,30 @@ pub fn drive<C, S>(
                 }
                 if !*failed {
                     rep.evaluations += 1;
+                    *first = Some((case.clone(), fail.clone()));
                 }
                 *failed = true;
                 Err(TestCaseError::fail(fail.sig))
             }
         }
     });
-    let (rep, _) = state.into_inner();
+    let (rep, _, first) = state.into_inner();
     match result {
         Ok(()) => {}
         Err(TestError::Fail(_, minimal)) => {
             // Confirm outside proptest.
             match guarded(&minimal, &check) {
                 Err(fail) => report_failure(ctx, rep, group, &minimal, fail),
-                Ok(_) => rep.infra_errors.push(format!(
-                    "{group}: shrunk case did not fail when re-run outside proptest (flaky oracle?)"
-                )),
+                Ok(_) => match first {
+                    Some((case, fail)) if time_dependent => {
+                        let fail = match guarded(&case, &check) {
+                            Err(again) => again,
+                            Ok(_) => Fail::new(fail.sig, format!("{} [observed once; the case passed when run again: the outcome depends on the wall clock]", fail.msg)),
+                        };
+                        report_failure(ctx, rep, group, &case, fail);
+                    }
+                    _ => rep.infra_errors.push(format!("{group}: shrunk case did not fail when re-run outside proptest (flaky oracle?)")),
+                },
             }
         }
         Err(TestError::Abort(why)) => {
